@@ -16,21 +16,21 @@ RULE = ('generated consistent / weakly consistent bases x random fact lists (str
         'worlds get the top rank, an unsatisfiable combination raises ValueError carrying the diagnostics line, '
         'and the diagnostics stored in metadata equal the reference flags. Non-trivial = base with >= 2 layers, a '
         'non-empty infinity layer, or facts; distinct by hash(base, facts, extended).')
-ASSUMPTIONS = ['worlds enumerated: <= 5 atoms; every 90th case has 11-12 atoms and is judged relationally (acceptance = System Z operator)']
+ASSUMPTIONS = ['worlds enumerated: <= 5 atoms; every 250th (quick) / 90th (thorough) case has 11-12 atoms and is judged relationally (acceptance = System Z operator)']
 HARD_TIMEOUT = 400
 SOFT_TIMEOUT = 300
 TRUSTED = []
-FLOOR = {'quick': 300, 'thorough': 3000}
+FLOOR = {'quick': 150, 'thorough': 1500}
 BUDGET = {'quick': 100, 'thorough': 1200}
 N = {'quick': 2500, 'thorough': 30000}
-REQUIRED = {'quick': {'objects_with_facts': 100, 'refusals_with_diagnostics': 20, 'acceptance_threeway': 800,
+REQUIRED = {'quick': {'objects_with_facts': 40, 'refusals_with_diagnostics': 10, 'acceptance_threeway': 300,
                       'forced_recalculations': 300},
             'thorough': {'objects_with_facts': 1000, 'refusals_with_diagnostics': 200, 'acceptance_threeway': 15000,
                          'forced_recalculations': 3000}}
 
 
 def cases(tier, seed):
-    out = [{'prop': ID, 'seed': seed, 'idx': i, 'large': i % 90 == 5} for i in range(N[tier])]
+    out = [{'prop': ID, 'seed': seed, 'idx': i, 'large': i % (250 if tier == 'quick' else 90) == 5} for i in range(N[tier])]
     out.sort(key=lambda c: not c['large'])
     return out
 
